@@ -132,6 +132,7 @@ type stats struct {
 	outsideRows        int64
 	subsetWritten      int64 // cases whose target is a strict non-empty subset and that changed a cell
 	colUpdSuppliedKept int64 // column-update / SkipHooks cases that wrote something while the value carried a non-zero update-time that had to stay unwritten (omitted / not selected)
+	twinChecked        int64 // map programs compared with their other-spelling twin
 	colUpdKeptTime     int64 // UpdateColumn(s) cases that wrote something and left both auto-time cells alone
 	hookUpdRefreshed   int64 // hook-running update cases with a refreshed update-time
 	omitKeptTime       int64 // hook-running update cases with update-time omitted and kept
@@ -246,6 +247,19 @@ func check(x *ctx, w *worker, c Case, distinct *mc.Set) {
 			fs = append(fs, finding{false, "unexpected error", fmt.Sprintf("the call returned %v", res.err)})
 		}
 	}
+	// differential rule: the same program with the map keys / Update column in
+	// the other spelling must write the same cells (and fail alike). Not
+	// applied when a key names a field gorm ignores (-, -:all): there the
+	// column spelling is a raw column name gorm does not connect to the field.
+	if !finIsStruct(c.Fin) && c.KeySpell == 0 && res.err == nil && !c.ignoredKeyOffered() {
+		twin := c
+		twin.KeySpell = 1
+		tres := w.exec(twin)
+		atomic.AddInt64(&st.twinChecked, 1)
+		if d := diffOutcomes(res, tres); d != "" {
+			fs = append(fs, finding{false, "map key spelling changes the written cells", fmt.Sprintf("field-name spelling vs column-name spelling (%s):\n%s", tres.prog, d)})
+		}
+	}
 	if len(fs) > 0 {
 		// the first hard finding names the kind, else the first finding
 		sort.SliceStable(fs, func(i, j int) bool { return fs[i].hard && !fs[j].hard })
@@ -299,6 +313,37 @@ func check(x *ctx, w *worker, c Case, distinct *mc.Set) {
 			x.samples.Add(map[string]interface{}{"model": c.Model.String(), "program": res.prog, "err": fmt.Sprint(res.err)})
 		}
 	}
+}
+
+func (c Case) ignoredKeyOffered() bool {
+	for i := 0; i < 4; i++ {
+		if c.Vals[i] != vAbsent && c.Model.perm(i).Ign {
+			return true
+		}
+	}
+	return false
+}
+
+// diffOutcomes compares two executions cell by cell; two fresh clock values
+// count as equal.
+func diffOutcomes(a, b result) string {
+	var sb strings.Builder
+	if errClass(a.err) != errClass(b.err) {
+		fmt.Fprintf(&sb, "  err %v vs %v\n", a.err, b.err)
+	}
+	if len(a.after) != len(b.after) {
+		fmt.Fprintf(&sb, "  %d rows vs %d rows\n", len(a.after), len(b.after))
+		return sb.String()
+	}
+	for i := range a.after {
+		for pi := range a.after[i] {
+			x, y := a.after[i][pi], b.after[i][pi]
+			if cellStr(x) != cellStr(y) && !(isFresh(x) && isFresh(y)) {
+				fmt.Fprintf(&sb, "  row #%d column %s: %s vs %s\n", i, physCols[pi], cellStr(x), cellStr(y))
+			}
+		}
+	}
+	return sb.String()
 }
 
 // outcomeSig: which cells changed (by logical column), how many new rows with
@@ -739,6 +784,7 @@ func main() {
 	floor("hook_update_cases_update_time_refreshed", st.hookUpdRefreshed, 10000*scale)
 	floor("hook_update_cases_update_time_omitted_kept", st.omitKeptTime, 1000*scale)
 	floor("positive_cells_checked", st.beChecked, 50000*scale)
+	floor("map_programs_compared_across_key_spelling", st.twinChecked, 20000*scale)
 	floor("distinct_outcomes", int64(x.outcomes.Len()), 100)
 
 	var ek []string
@@ -754,7 +800,8 @@ func main() {
 	pprof.StopCPUProfile()
 	run.Assume("SQLite dialect (RETURNING on) only; models without hooks, associations, default values, embedded structs or soft delete; one single-column primary key")
 	run.Assume("the reference meaning of each permission tag and of Select/Omit is written from gorm's documentation in oracle.go/model.go and is trusted")
-	run.Assume("cells classified 'free' by the reference model are not asserted: auto-time cells on create under a restricting Select that does not name them, on create-from-map / upsert-from-map without a key for them, the update-time cell on upsert-from-map and under explicit DoUpdates; a DoUpdates column listed by hand for a restricted field; a map key spelled as the raw column name of a field gorm ignores (-, -:all); the primary key cell when Select(\"*\") meets a struct value; a create-time/update-time cell that is selected explicitly while the struct carries the zero value (only 'never a fresh time' is asserted); a map key for the update-time column under a hook-running update: caller's value or now are both accepted when the column is selected/unrestricted, nothing is asserted when a restricting Select does not name it; in-memory write-back into the model value is not part of this property")
+	run.Assume("cells classified 'free' by the reference model are not asserted: auto-time cells on create under a restricting Select that does not name them, on create-from-map / upsert-from-map without a key for them, the update-time cell on upsert-from-map and under explicit DoUpdates; a DoUpdates column listed by hand for a restricted field; a map key spelled as the raw column name of a field gorm ignores (-, -:all); the primary key cell when Select(\"*\") meets a struct value; a create-time/update-time cell that is selected explicitly while the struct carries the zero value (only 'never a fresh time' is asserted); a map key for the update-time column under a hook-running update when a restricting Select does not name it; in-memory write-back into the model value is not part of this property")
+	run.Assume("differential rule: every map program (Create(map), Create(&[]map), upsert-from-map, Updates(map), Update, UpdateColumn, UpdateColumns(map)) is also run with its keys in the other spelling and must write the same cells, including the cells the absolute model leaves free; excluded: maps with a key for a field gorm ignores (-, -:all)")
 	run.Assume("a Session{SkipHooks:true} chain is treated like the column-update methods (no refresh of update-time, update-time written only when selected or supplied)")
 	run.Finish(map[string]interface{}{
 		"evaluations":         st.total,
@@ -779,6 +826,7 @@ func main() {
 		"column_update_cases_supplied_update_time_kept": st.colUpdSuppliedKept,
 		"hook_update_cases_update_time_refreshed":       st.hookUpdRefreshed,
 		"hook_update_cases_update_time_omitted_kept":    st.omitKeptTime,
+		"map_programs_compared_across_key_spelling":     st.twinChecked,
 		"new_rows_seen":                                 st.newRowsSeen,
 		"error_classes":                                 errs,
 	})
